@@ -242,6 +242,37 @@ func checkChildrenRegistered(w *World, r *Result) {
 				if c2, ok := y.(*ast.CallExpr); ok && calleeOf(inf, c2) == ht.Obj && len(c2.Args) >= 1 && ast.Unparen(c2.Args[0]) == ast.Expr(call) {
 					okk = true
 				}
+				// handed to a helper of the package that passes that parameter to handleType
+				if c2, ok := y.(*ast.CallExpr); ok && !okk {
+					if h := w.Funcs[calleeOf(inf, c2)]; h != nil && h.Decl.Body != nil && h.Pkg == fi.Pkg && h.Obj != ht.Obj {
+						for j, a := range c2.Args {
+							if ast.Unparen(a) != ast.Expr(call) {
+								continue
+							}
+							var pobj types.Object
+							k := 0
+							for _, f := range h.Decl.Type.Params.List {
+								for _, nm := range f.Names {
+									if k == j {
+										pobj = h.Pkg.TypesInfo.Defs[nm]
+									}
+									k++
+								}
+							}
+							if pobj == nil {
+								continue
+							}
+							ast.Inspect(h.Decl.Body, func(z ast.Node) bool {
+								if c3, ok := z.(*ast.CallExpr); ok && calleeOf(h.Pkg.TypesInfo, c3) == ht.Obj && len(c3.Args) >= 1 {
+									if id := identOf(c3.Args[0]); id != nil && objOf(h.Pkg.TypesInfo, id) == pobj && len(defsIn(h.Pkg.TypesInfo, h.Decl, pobj)) == 0 {
+										okk = true
+									}
+								}
+								return true
+							})
+						}
+					}
+				}
 				return true
 			})
 			r.cond(okk, "AGR-C12b", fi.Name, "child "+es(call)+" analysed", w.Pos(call.Pos()), "the child type is handed to handleType", "a child type is obtained but not analysed through handleType: the graph is not closed")
@@ -326,6 +357,63 @@ func checkAccessorAgreement(w *World, r *Result) {
 						}
 					}
 				}
+			case *ast.CallExpr:
+				// the case hands its values to a helper that builds the node: the helper's field assignments are read
+				// with its parameters replaced by what this case passes
+				h := w.Funcs[calleeOf(info, s)]
+				if h == nil || h.Decl.Body == nil || h.Pkg != fi.Pkg || strings.HasSuffix(h.Name, ").handleType") || h == fi {
+					return true
+				}
+				hinfo := h.Pkg.TypesInfo
+				argOf := map[types.Object]ast.Expr{}
+				k := 0
+				for _, f := range h.Decl.Type.Params.List {
+					for _, nm := range f.Names {
+						if k < len(s.Args) {
+							argOf[hinfo.Defs[nm]] = s.Args[k]
+						}
+						k++
+					}
+				}
+				subst := func(val ast.Expr) ast.Expr {
+					var out ast.Expr
+					ast.Inspect(val, func(y ast.Node) bool {
+						if id, ok := y.(*ast.Ident); ok && out == nil {
+							if a, ok := argOf[objOf(hinfo, id)]; ok && len(defsIn(hinfo, h.Decl, objOf(hinfo, id))) == 0 {
+								out = a
+							}
+						}
+						return true
+					})
+					return out
+				}
+				ast.Inspect(h.Decl.Body, func(y ast.Node) bool {
+					switch hs := y.(type) {
+					case *ast.AssignStmt:
+						for i, l := range hs.Lhs {
+							if sel, ok := l.(*ast.SelectorExpr); ok && i < len(hs.Rhs) {
+								if v, ok := hinfo.Uses[sel.Sel].(*types.Var); ok && v.IsField() && w.Rel(v.Pkg()) == "analysis" {
+									if a := subst(hs.Rhs[i]); a != nil {
+										check(sel.Sel.Name, a, s.Pos())
+									}
+								}
+							}
+						}
+					case *ast.CompositeLit:
+						for _, el := range hs.Elts {
+							if kv, ok := el.(*ast.KeyValueExpr); ok {
+								if id := identOf(kv.Key); id != nil {
+									if v, ok := hinfo.Uses[id].(*types.Var); ok && v.IsField() && w.Rel(v.Pkg()) == "analysis" {
+										if a := subst(kv.Value); a != nil {
+											check(id.Name, a, s.Pos())
+										}
+									}
+								}
+							}
+						}
+					}
+					return true
+				})
 			}
 			return true
 		})
